@@ -22,6 +22,9 @@ pub struct Scenario {
     pub chunking: usize,
     /// Inject one transient I/O error (ErrorKind::Other) before this line index.
     pub read_error_before_line: Option<usize>,
+    /// k>0: the k-th, 2k-th, ... read() is interrupted by a signal (EINTR) before it
+    /// delivers anything; retrying is the caller's duty and loses nothing
+    pub eintr_every: usize,
     pub key_seed: u64,
 }
 
@@ -32,6 +35,7 @@ impl Scenario {
             "cut": self.cut,
             "chunking": self.chunking,
             "read_error_before_line": self.read_error_before_line,
+            "eintr_every": self.eintr_every,
             "key_seed": self.key_seed,
         })
     }
@@ -45,6 +49,7 @@ impl Scenario {
             cut: v["cut"].as_u64().map(|x| x as usize),
             chunking: v["chunking"].as_u64().unwrap_or(0) as usize,
             read_error_before_line: v["read_error_before_line"].as_u64().map(|x| x as usize),
+            eintr_every: v["eintr_every"].as_u64().unwrap_or(0) as usize,
             key_seed: v["key_seed"].as_u64().unwrap_or(0),
         })
     }
@@ -173,6 +178,7 @@ pub fn gen_script(rng: &mut Rng) -> Scenario {
             _ => rng.range(2, 40) as usize,
         },
         read_error_before_line: None,
+        eintr_every: 0,
         key_seed: rng.next_u64(),
     }
 }
@@ -343,7 +349,16 @@ pub fn run_scenario(sc: &Scenario, keep_log: bool) -> RunResult {
             st.push_bytes(c);
         }
     }
-    st.ev(&format!("cfg c16 key_seed={} chunking={}", sc.key_seed, sc.chunking));
+    if sc.eintr_every > 0 {
+        let chunks: Vec<Chunk> = st.input.drain(..).collect();
+        for (i, c) in chunks.into_iter().enumerate() {
+            if (i + 1) % sc.eintr_every == 0 {
+                st.input.push_back(Chunk::Err(std::io::ErrorKind::Interrupted));
+            }
+            st.input.push_back(c);
+        }
+    }
+    st.ev(&format!("cfg c16 key_seed={} chunking={} eintr_every={}", sc.key_seed, sc.chunking, sc.eintr_every));
     let proc_ = Proc::start(st, None);
     let (outcome, _) = proc_.run(|| {
         let mut f = engine::uci::Flounder::new();
@@ -462,6 +477,11 @@ pub fn shrink_value(v: &Value) -> Vec<Value> {
         n.chunking = 0;
         out.push(n.to_json());
     }
+    if sc.eintr_every != 0 {
+        let mut n = sc.clone();
+        n.eintr_every = 0;
+        out.push(n.to_json());
+    }
     for i in 0..sc.lines.len() {
         let mut n = sc.clone();
         n.lines.remove(i);
@@ -560,6 +580,24 @@ pub fn run(ctx: &Ctx) -> i32 {
             s.read_error_before_line = Some(rng.usize_below(base.lines.len()));
             runs.push(s);
         }
+        // reads interrupted by signals (EINTR), full stream and one seeded cut, small chunks
+        if !base.lines.is_empty() {
+            for k in 0..2 {
+                let mut s = base.clone();
+                s.eintr_every = rng.range(1, 3) as usize;
+                if s.chunking == 0 && rng.chance(1, 2) {
+                    s.chunking = rng.range(2, 12) as usize;
+                }
+                if k == 1 {
+                    let c = rng.usize_below(total + 1);
+                    if !cut_in_scope(&base, c) {
+                        continue;
+                    }
+                    s.cut = if c == total { None } else { Some(c) };
+                }
+                runs.push(s);
+            }
+        }
         let real_sample: Option<usize> = if real_bin.is_some() && i % 4 == 0 {
             Some(rng.usize_below(runs.len()))
         } else {
@@ -574,7 +612,7 @@ pub fn run(ctx: &Ctx) -> i32 {
             let dl = delivered_lines(&delivered);
             let has_quit = expectation(&dl).quit_seen;
             res.distinct
-                .push(hash_str(&format!("{}:{:?}:{:?}", shape, sc.cut, sc.read_error_before_line)));
+                .push(hash_str(&format!("{}:{:?}:{:?}:{}", shape, sc.cut, sc.read_error_before_line, sc.eintr_every)));
             if !has_quit {
                 res.faults.add("eof_without_quit", 1);
             }
@@ -586,6 +624,9 @@ pub fn run(ctx: &Ctx) -> i32 {
             }
             if sc.read_error_before_line.is_some() {
                 res.faults.add("read_error", r.faults.read_error);
+            }
+            if sc.eintr_every > 0 {
+                res.faults.add("read_interrupted_eintr", r.faults.read_error);
             }
             if dl.iter().any(|l| l.is_none()) {
                 res.faults.add("undecodable_line", 1);
@@ -616,7 +657,7 @@ pub fn run(ctx: &Ctx) -> i32 {
                 res.violations.push(violation(sc, &r, class, detail, i, seed));
             } else if Some(ri) == real_sample {
                 // fidelity: same bytes to the real binary (only for runs the sim says terminate)
-                if sc.read_error_before_line.is_none() {
+                if sc.read_error_before_line.is_none() && sc.eintr_every == 0 {
                     if let Some(bin) = &real_bin {
                         if let Ok(rr) = realbin::run_real(bin, &delivered, std::time::Duration::from_secs(20)) {
                             res.probes.add("real_binary_runs", 1);
@@ -651,7 +692,7 @@ pub fn run(ctx: &Ctx) -> i32 {
     });
     let ev = Evidence {
         level: "fault_enumeration",
-        rule: "Seeded UCI scripts (uci/isready/ucinewgame/position/go depth<=2/blank/unknown/undecodable lines, CRLF and padding, quit present/absent/not last); for each script every byte offset 0..=len is a crash point 'input ends here' (truncated position/go commands are outside the property and skipped; scripts that run searches enumerate all line boundaries +-1 and a seeded third of the other offsets), plus one transient read error. A case is (script shape, cut, read-error position); all are non-trivial (each runs one simulated engine process to termination).".into(),
+        rule: "Seeded UCI scripts (uci/isready/ucinewgame/position/go depth<=2/blank/unknown/undecodable lines, CRLF and padding, quit present/absent/not last); for each script every byte offset 0..=len is a crash point 'input ends here' (truncated position/go commands are outside the property and skipped; scripts that run searches enumerate all line boundaries +-1 and a seeded third of the other offsets), plus one transient read error, plus two runs in which every 1st-3rd read() is first interrupted by a signal (EINTR: must be invisible, judged like an undisturbed run). A case is (script shape, cut, read-error position); all are non-trivial (each runs one simulated engine process to termination).".into(),
         extra: {
             let mut m = serde_json::Map::new();
             m.insert("real_binary_available".into(), json!(real_bin.is_some()));
